@@ -259,6 +259,28 @@ def oracle_cycles(ctx, im):
     if abs(mx - smx) > 1e-6:
         ctx.violation("maximum loop-carried latency %r differs from the maximum cycle latency %r" % (mx, smx), dict(im.info()))
         return False
+    # the report: the LCD column marks exactly the members of one cycle attaining the maximum, and the summary
+    # row shows the maximum
+    try:
+        import re
+        from osaca.frontend import Frontend
+
+        fe = Frontend(arch=im.arch) if im.arch != "synisa" else None
+        if fe is not None:
+            text = fe.combined_view(im.kernel, im.kdg.get_critical_path(), im.kdg.get_loopcarried_dependencies())
+            marked = set()
+            for row in text.split("\n"):
+                m = re.match(r"^\s*(\d+) \|.*\|\|\s*([-\d.]*)\s*\|\s*([-\d.]*)\s*\|", row)
+                if m and m.group(3) != "":
+                    marked.add(int(m.group(1)))
+            ctx.count("lcd_columns_checked")
+            maximal = [set(ls) for ls, lat in spec if abs(lat - smx) < 1e-6]
+            if (maximal and marked not in maximal) or (not maximal and marked):
+                ctx.violation("the LCD column marks lines %s, which are not the members of a maximum-latency cycle %s"
+                              % (sorted(marked), [sorted(x) for x in maximal][:3]), dict(im.info(), marked=sorted(marked)))
+                return False
+    except Exception as e:  # noqa
+        ctx.count("lcd_column_errors")
     return True
 
 
